@@ -7,8 +7,6 @@
    never reads the client's `flagcritical`: for the model the driver derives from the bytes whether a
    failing write of blast() came after `flagcritical = 1` (`flagWrite`), for the oracle whether it carried
    the last byte of the encoded message (`critWrite`) — only then is the "Possible duplicate!" flag required.
-   The one open finding (a failing QUIT write replaces a decided K/D by "connection died") is tagged
-   `known=C09-quit-write-failure` on its ORACLE line, for exactly that case.
    `R` lines: the real qmail-rspawn report() — compared with `rreport`; predicates
    `rspawnSound/rspawnClasses/noUpgrade` on the implementation's line.
    Line formats: see harness/c09_remote.c -/
@@ -76,14 +74,6 @@ def oracleLabel (a : Args) (msg wire wtry : Bytes) (wf : Option WPoint) : Option
 def modelLabel (a : Args) (msg wire wtry : Bytes) (wf : Option WPoint) : Option WPoint :=
   oracleWf wf ((rblast msg).isSome && !a.msgErr && flagWrite a (encodedBody msg) wire wtry)
 
-/-- exactly the open finding: the failing write is the QUIT, the rules had decided K or D, nothing else
-    is wrong, and the last report is `dropped()`'s unflagged "connection died" for this host -/
-def isQuitFinding (host : Bytes) (wf : Option WPoint) (wtry : Bytes) (e : Exp) (why : String) (out : Bytes) : Bool :=
-  wf == some .quit && wtry == quitCmd && (e.v == .K || e.v == .D) && why == "wrong_class," &&
-  (records [] out).getLast? == some (droppedRep host false)
-
-def knownTag : String := " known=C09-quit-write-failure"
-
 def handleS (st : Stats) (line : String) (f : List String) : IO Stats := do
   match f with
   | [_, ipS, heloS, senderS, rcptsS, msgS, msgerrS, streamS, chunk, wk, endmode, wlabelS, wtryS, outS, wireS, exitS, relayS] =>
@@ -138,9 +128,7 @@ def handleS (st : Stats) (line : String) (f : List String) : IO Stats := do
       if !relayWithin out relay then why := why ++ "relay_text_not_from_output,"
       if headB relay == cK && !(e.v == .K && e.rl.head? == some lR) then why := why ++ "relay_K_but_not_accepted,"
       if why != "" then
-        let known := isQuitFinding host wf wtry e why out
-        if known then st := st.bump "known_quit_write_failure"
-        IO.println s!"ORACLE kind=S in={streamS} why={why} ip={ipS} helo={heloS} sender={senderS} rcpts={rcptsS} msg={msgS} msgerr={msgerrS} chunk={chunk} wk={wk} endmode={endmode} wlabel={wlabelS} wtry={wtryS} out={outS} wire={wireS} exit={exitS} relay={relayS} expected={verdictStr e.v}{if known then knownTag else ""}"
+        IO.println s!"ORACLE kind=S in={streamS} why={why} ip={ipS} helo={heloS} sender={senderS} rcpts={rcptsS} msg={msgS} msgerr={msgerrS} chunk={chunk} wk={wk} endmode={endmode} wlabel={wlabelS} wtry={wtryS} out={outS} wire={wireS} exit={exitS} relay={relayS} expected={verdictStr e.v}"
         st := { st with oracle := st.oracle + 1 }
       if fresh && st.samples < 3 && wfS && rcpts.length ≥ 2 && stream.contains DASH && codes.length ≥ 5 then
         IO.println s!"SAMPLE kind=S stream={streamS} nrcpt={rcpts.length} wlabel={wlabelS} out={outS} relay={relayS}"
@@ -212,7 +200,6 @@ def handleM (st : Stats) (line : String) (f : List String) : IO Stats := do
         st := { st with disagree := st.disagree + 1 }
       -- oracle
       let mut why := ""
-      let mut known := false
       if exitS != "0" then why := why ++ "exit_nonzero,"
       match parseOut out with
       | none => why := why ++ "malformed_report_stream,"
@@ -225,15 +212,12 @@ def handleM (st : Stats) (line : String) (f : List String) : IO Stats := do
         | .connected _ h =>
           let codes := match specCodes stream with | some c => c | none => (frames .d1 [] stream).map codeNat
           let as : AScript := { codes, n := 1, msgErr := false, msgPartial := false, wfail := oracleLabel a a.msg wire wtry wf }
-          let whyPre := why
           if !kSound as o then why := why ++ "K_unsound,"
           if !verdictOK (expect as).v o then why := why ++ "wrong_class,"
           if !wireOrderQ { a with host := h } (encodedBody a.msg) wire o (wf == some .quit) then why := why ++ "commands_out_of_order_or_missing,"
-          known := whyPre == "" && isQuitFinding h wf wtry (expect as) why out
         | .report _ => if !wire.isEmpty then why := why ++ "wrote_without_connection,"
       if why != "" then
-        if known then st := st.bump "known_quit_write_failure"
-        IO.println s!"ORACLE kind=M in={streamS} why={why} dnsret={dnsS} cands={candsS} wk={wk} wlabel={wlabelS} wtry={wtryS} out={outS} wire={wireS} exit={exitS} trace={traceS}{if known then knownTag else ""}"
+        IO.println s!"ORACLE kind=M in={streamS} why={why} dnsret={dnsS} cands={candsS} wk={wk} wlabel={wlabelS} wtry={wtryS} out={outS} wire={wireS} exit={exitS} trace={traceS}"
         st := { st with oracle := st.oracle + 1 }
       return st
     | _, _, _, _, _, _, _ => IO.println s!"DISAGREE unparsable line {line}"; return { st with disagree := st.disagree + 1 }
